@@ -432,8 +432,7 @@ theorem peo_aux (pre : List Attr) : ∀ (g : Graph) (order : List Attr), order.N
 
 set_option linter.unusedVariables false in
 theorem triangulate_peo (g : Graph) (order : List Attr) (hnd : order.Nodup)
-    (hcov : ∀ a ∈ g.nodes, a ∈ order) (hsub : ∀ a ∈ order, a ∈ g.nodes)
-    (hed : ∀ e ∈ g.edges, e.1 ∈ g.nodes ∧ e.2 ∈ g.nodes)
+    (hsub : ∀ a ∈ order, a ∈ g.nodes)
     (pre post : List Attr) (v : Attr) (hsplit : order = pre ++ v :: post)
     (x y : Attr) (hx : x ∈ post) (hy : y ∈ post) (hxy : x ≠ y)
     (hvx : (triangulate g order).adj v x = true) (hvy : (triangulate g order).adj v y = true) :
